@@ -289,7 +289,11 @@ def shift(array, shift, out=None, order=3, mode='constant', cval=0.0,
     array = _maybe_filter(array, order, 'interpolate.shift', prefilter, dtype=np.float64)
     _check_mode(mode, cval, 'interpolation.shift')
     output = internal._get_output(array, out, 'interpolate.shift', dtype=np.float64, output=output)
-    shift = np.ascontiguousarray(shift, dtype=np.float64)
+    # a private copy: the sign is flipped below and the caller's array must stay as it is
+    shift = np.array(shift, dtype=np.float64, ndmin=1)
+    if shift.size == 1 and array.ndim > 1:
+        # a single float means the same shift along every axis
+        shift = np.repeat(shift, array.ndim)
     if not np.all(np.isfinite(shift)):
         # the native code turns the coordinates into array indices
         raise ValueError('mahotas.interpolation.shift: shift must be finite')
